@@ -20,10 +20,10 @@ import (
 )
 
 type planCase struct {
-	Node  *nodeState `json:"node"`
-	Req   wlRequest  `json:"request"`
-	Count int        `json:"count,omitempty"`  // 0: derive from reported capacity
-	Via   string     `json:"via"`              // plugin | planner
+	Node   *nodeState     `json:"node"`
+	Req    wlRequest      `json:"request"`
+	Count  int            `json:"count,omitempty"`  // 0: derive from reported capacity
+	Via    string         `json:"via"`              // plugin | planner
 	Origin map[string]int `json:"origin,omitempty"` // realloc/affinity: cpu map of the workload being re-planned
 	Place  *wlRequest     `json:"place,omitempty"`  // plugin-realloc: the request that placed the workload; Req is then the realloc delta
 }
